@@ -356,17 +356,17 @@ fn obs_value(d: &Data, payload: &Value, strings: &[String]) -> Value {
                 } else if *x == p / 100.0 {
                     json!({"t": "f", "cls": id, "sc": -1})
                 } else {
-                    json!({"t": "f", "cls": "?", "sc": 0})
+                    json!({"t": "f", "cls": -1, "sc": 0})
                 }
             } else if let Some(p) = payload.get("int").and_then(|v| v.as_i64()) {
                 if *x == p as f64 / 100.0 {
                     let (m, s) = norm(p, 1);
                     json!({"t": "f", "m": m, "s": s})
                 } else {
-                    json!({"t": "f", "cls": "?", "sc": 0})
+                    json!({"t": "f", "cls": -1, "sc": 0})
                 }
             } else {
-                json!({"t": "f", "cls": "?", "sc": 0})
+                json!({"t": "f", "cls": -1, "sc": 0})
             }
         }
         Data::String(s) => match strings.iter().position(|t| t == s) {
